@@ -321,7 +321,13 @@ func planScreen(rng *rand.Rand, nops int, w, h int, mix string, rich bool, hasCa
 				last = last[1:]
 			}
 		case k < 48 && len(last) > 0: // re-store identical content (C13)
-			add(last[rng.Intn(len(last))])
+			o := last[rng.Intn(len(last))]
+			add(o)
+			if rng.Intn(2) == 0 { // ... with a frame before and after, so that the second store is the only thing between them
+				add(sop{Op: "Show"})
+				add(o)
+				add(sop{Op: "Show"})
+			}
 		case k < 50: // read a cell back and store what was read (an unchanged cell, whatever wrote it)
 			add(sop{Op: "Restore", X: rng.Intn(cw), Y: rng.Intn(ch)})
 		case k < 65:
@@ -639,6 +645,9 @@ func (r *screenRun) run(ops []sop, w, h int, truecolor bool, altscreen bool) err
 		switch o.Op {
 		case "SetContent":
 			mine := append([]rune(nil), o.Comb...)
+			if len(mine) == 0 && (o.X+o.Y)%2 == 1 {
+				mine = []rune{} // "no combining runes" as an empty slice instead of nil: the same content
+			}
 			switch (o.X*7 + o.Y*3 + int(o.R) + len(o.Comb)) % 6 { // a fifth of the stores go through the older SetCell
 			case 0:
 				if o.R == ' ' && len(mine) == 0 && (o.X+o.Y)%2 == 0 {
